@@ -33,6 +33,9 @@ func (s *Store) RemoveWebhook(id int64) error {
 // Webhooks returns all webhooks.
 func (s *Store) Webhooks() (hooks []webhooks.Webhook, err error) {
 	err = s.transaction(func(tx *txn) error {
+		// the transaction may be retried: start from an empty result
+		hooks = hooks[:0]
+
 		rows, err := tx.Query("SELECT id, callback_url, secret_key, scopes FROM webhooks")
 		if err != nil {
 			return err
